@@ -60,6 +60,15 @@ REQUIRED = [
     ("script runs out of cycles", lambda p: p["fam"] == "script" and p["brules"] == ["cycles"]),
     ("cycles at/below the limit", lambda p: p["fam"] == "cycles" and p["bv"] == "accept" and len(p["tx"]["ins"]) >= 2),
     ("cycles over the limit", lambda p: p["fam"] == "cycles" and p["brules"] == ["cycles"]),
+    ("output type script succeeds", B("typescript", "accept", "out-ok")),
+    ("output type script fails", lambda p: p["fam"] == "typescript" and p["lab"] == "out-fail" and p["brules"] == ["script"]),
+    ("output type script runs out of cycles", lambda p: p["fam"] == "typescript" and p["lab"] == "out-loop" and p["brules"] == ["cycles"]),
+    ("input with a type script", B("typescript", "accept", "in-ok")),
+    ("type group of an output fills the cycle limit", B("typecycles", "accept", "out")),
+    ("type group of an output exceeds the cycle limit", lambda p: p["fam"] == "typecycles" and p["lab"] == "out" and p["brules"] == ["cycles"]),
+    ("type group of an input fills the cycle limit", B("typecycles", "accept", "in")),
+    ("type group of an input exceeds the cycle limit", lambda p: p["fam"] == "typecycles" and p["lab"] == "in" and p["brules"] == ["cycles"]),
+    ("type groups of an input and an output are two groups", lambda p: p["fam"] == "typecycles" and p["lab"] == "in-and-out" and p["brules"] == ["cycles"]),
 ]
 
 
@@ -189,7 +198,7 @@ def run(tier):
     c.rule = ("cases = (ledger context prefix, probe transaction, judge in {block, test_accept_tx, submit_local_tx}, straight/detour "
               "node); non-trivial = the spec rejects, or the transaction sits on the accepting side of a context-dependent boundary")
     c.assumptions = [
-        "scripts are always-success / always-failure / infinite-loop binaries; no type scripts, no DAO cells",
+        "scripts are always-success / always-failure / infinite-loop binaries, as lock of inputs and as type of inputs / outputs; no DAO cells",
         "the in-block judge runs every verifier except the two-phase-commit window (C03), so that a probe can be committed at any position",
         "pool policy is neutralised (min fee rate 0, RBF off); the pool's content is part of the context (the detour node's re-added "
         "transaction is removed before judging)",
